@@ -247,8 +247,17 @@ func (r *inproc) name() string {
 }
 
 func (r *inproc) literal(v val) string { return v.lit() }
-func (r *inproc) canBind(pos) bool     { return true }
-func (r *inproc) close()               {}
+func (r *inproc) canBind(p pos) bool   { return binBindable(p) }
+
+// binBindable: a binary-string position becomes a parameter only where the value is compared
+// with / stored into the VARBINARY column or its bytes are taken by HEX / LENGTH. Elsewhere
+// the *type* of the bound value shows legitimately: a user variable set from X'61' is a
+// VARBINARY(1), a []byte client argument is a character string, the literal is a LONGBLOB,
+// and type inference of e.g. COALESCE(bn, <that>) differs per type (observed: COALESCE of a
+// VARBINARY(16) column and a VARBINARY(1) value is typed LONGTEXT and then fails on bytes
+// that are not UTF-8, with or without a prepared statement - not this property's subject).
+func binBindable(p pos) bool { return p.c != cBin || p.direct }
+func (r *inproc) close()     {}
 
 func (r *inproc) prepare(text string, n int) error {
 	r.text, r.n = text, n
